@@ -201,7 +201,7 @@ CHECKS = {
         "exactly and each once the unconnected pins of the present structures (free_pins_exact: pins freed by a cut are free again, pins "
         "facing a removed structure are gone, a re-added structure brings its pins back). The tie replays random histories, hub histories "
         "(cut/remove of a structure with >=2 neighbours, bypass, re-add), prune with empty models, shared pin names and re-mapped names "
-        "on /repo and compares after EVERY call the observable state and at every solve the matrix with the model. Further: multi-link histories (two non-consecutive links to one neighbour, the neighbour removed, the structure cut / removed / re-added) and structures that are placed sub-solvers (25-40 % of the components). Further: expose-then-wire histories (a pin is exposed while free, wired, and the partner cut again). On every run harness/translate_edit.py also executes the CURRENT source of Solver.cut_structure and Solver.remove_structure symbolically (their loops over copies of the solver's tables become folds) and coq/templates/EditSrcProof.v proves them equal to Wiring.cut_op / Wiring.remove_op for every state whose link and exposure tables have distinct keys; Solver.connect is tied the same way (translate_wiring.py, WiringSrcProof.v), and so are Structure.add_conn, Structure.cut_connections the registration half of Solver.add_structure and Solver.maps_all_pins (translate_struct.py, StructSrcProof.v). 7 theorems, closed under the global context.",
+        "on /repo and compares after EVERY call the observable state and at every solve the matrix with the model. Further: multi-link histories (two non-consecutive links to one neighbour, the neighbour removed, the structure cut / removed / re-added) and structures that are placed sub-solvers (25-40 % of the components). Further: expose-then-wire histories (a pin is exposed while free, wired, and the partner cut again). On every run harness/translate_edit.py also executes the CURRENT source of Solver.cut_structure and Solver.remove_structure symbolically (their loops over copies of the solver's tables become folds) and coq/templates/EditSrcProof.v proves them equal to Wiring.cut_op / Wiring.remove_op for every state whose link and exposure tables have distinct keys; Solver.connect is tied the same way (translate_wiring.py, WiringSrcProof.v), and so are Structure.add_conn, Structure.cut_connections the registration half of Solver.add_structure and Solver.maps_all_pins (translate_struct.py, StructSrcProof.v). 8 theorems, closed under the global context.",
    note="Trusted: Coq kernel + vm_compute; Bignums primitives for the executed instance; model Wiring.v tied by sampled correspondence; harness. "
         "The model follows the fixed code (F08, F09, F10 in known_findings.json).",
    technique="Coq proof (representation invariant preserved by every operation, induction over histories) + vm_compute state-by-state correspondence + source-to-Gallina translation of connect / cut_structure / remove_structure proved equal to the model's step on every run", design="§5 C07, §8"),
